@@ -1,3 +1,5 @@
+//go:build !skip_c12
+
 package main
 
 // C12 — the certificate cache and its name index always agree, within capacity.
